@@ -12,11 +12,19 @@ VAL_ATOMS = [b"v", b"1", b"prod", b"a=b", b"with space", b"\xf0\x9f\x98\x80", b"
 UNICODE_ATOMS = [x.encode("utf-8") for x in ("\u0663", "\uff11", "\u0968", "\u2167", "\u00b2", "\u00c9", "\u043d", "\u043a", "\u4e3d", "\u4e3a",
                                               "\u0301", "\u203f", "\u00a0", "\u017c", "\u0123", "\u012c", "\u0140", "\u015b", "\u015d", "\u212a")]
 # names and values that contain bytes of the sample syntax itself
+# two strings with equal 64-bit FNV-1a sums (a memo table or a set keyed by the hash alone confuses them)
+FNV64_TWINS = [b"gadlgenekeokochf", b"cmafdfhkcfbljoif"]
+FNV64_TWIN_NAMES = [b"m.plhjCwo5vzo", b"m.U8HMUVhLJak"]                       # ... as metric names
+# names whose cache keys collide: "counter.<name>" under 64-bit FNV-1a, and under 32-bit FNV-1a
+FNV_TWIN_COUNTER_NAMES = [b"req.d317fded79e14782", b"req.3a53940b3f0db526", b"app.pod-9gapmv6x.requests", b"app.pod-8hdw98sq.requests"]
+# characters a series / cache key could use as a field separator: a value that contains one can imitate a field boundary
+SEPARATORS = [b"\xc3\xbf", b"\x00", b"\x01", b"\x1f", b"\x7f", b";", b"/", b"\xc2\x80", b"\xef\xbf\xbf"]
 SYNTAX_NAMES = [b"a|#b", b"p|q", b"x@y", b"|#n", b"n|#", b"m|c", b"q|@0.5"]
 LONG_NAME = b"long" + b"n" * 121                                         # 125 bytes: beyond any plausible fixed buffer
-NAME_ATOMS += [b"cpu" + u for u in UNICODE_ATOMS[:6]] + UNICODE_ATOMS[6:] + [LONG_NAME, b"x" * 300]
+NAME_ATOMS += FNV64_TWINS + [b"cpu" + u for u in UNICODE_ATOMS[:6]] + UNICODE_ATOMS[6:] + [LONG_NAME, b"x" * 300]
 KEY_ATOMS += ["\u0440\u0435\u0433\u0438\u043e\u043d".encode(), "\u043a\u043b\u0430\u0441\u0442\u0435\u0440".encode()] + [b"shard" + u for u in UNICODE_ATOMS] + [b"K" * 70]
-VAL_ATOMS += UNICODE_ATOMS[:4] + [b"v" * 200]
+VAL_ATOMS += UNICODE_ATOMS[:4] + [b"v" * 200] + [b"p" + x + b"q" for x in SEPARATORS[:3]]
+KEY_ATOMS += FNV64_TWINS
 TYPES = [b"c", b"g", b"ms", b"h", b"d"]
 BAD_TYPES = [b"s", b"x", b"", b"cc", b"C", b"m", b"kv"]
 NUMS = [b"1", b"0", b"2.5", b"-3", b"+4", b"100", b"1e3", b"0.001", b"-0", b"+0", b".5", b"5.", b"1_000", b"0x1p-2",
@@ -126,7 +134,7 @@ def c09_renderings(d):
 def multi_datum(rnd):
     """(name, [samples], [ok flags]) for C10: 1-6 samples, malformed in any position."""
     nm = name(rnd, exotic=False) if rnd.random() < 0.8 else rnd.choice(SYNTAX_NAMES + [LONG_NAME])
-    n = rnd.randint(1, 6)
+    n = rnd.randint(1, 6) if rnd.random() < 0.95 else rnd.choice([63, 64, 65, 66, 129, 200])
     ss, oks = [], []
     for i in range(n):
         s, ok = sample(rnd, bad_p=0.35)
@@ -139,7 +147,8 @@ def multi_datum(rnd):
 
 def extagg_datum(rnd):
     nm = name(rnd, exotic=False) if rnd.random() < 0.85 else rnd.choice(SYNTAX_NAMES + [LONG_NAME])
-    vals = [rnd.choice(NUMS if rnd.random() < 0.8 else BAD_NUMS) for _ in range(rnd.randint(2, 6))]
+    nvals = rnd.randint(2, 6) if rnd.random() < 0.93 else rnd.choice([63, 64, 65, 66, 127, 128, 129, 200, 300])
+    vals = [rnd.choice(NUMS if rnd.random() < 0.8 else BAD_NUMS) for _ in range(nvals)]
     t = rnd.choice([b"ms", b"h", b"d"] * 3 + [b"c", b"g", b"s", b"x"])
     suffix = t
     if rnd.random() < 0.5:
